@@ -16,6 +16,7 @@ def profile(st):
                         'wrong_side_p': st.choice([0.0, 0.15], 'wsp'), 'near_band_p': 0.0, 'exit_in_go': st.chance(0.5, 'eig'), 'p_modify': st.choice([0.0, 0.02], 'pm'),
                         'p_liquidate': st.choice([0.0, 0.01], 'pl'), 'p_dup': 0.0, 'p_keep_entry': st.choice([0.0, 0.5], 'pk'),
                         'size_frac': st.choice([0.05, 0.2], 'sf'),
+                        'p_hook_market': st.choice([0.0, 0.5], 'phm'),
                         'ohlc_entries': st.chance(0.5, 'ohlc'), 'data_gate': st.chance(0.6, 'dgate')}}
 
 
